@@ -104,12 +104,7 @@ def evalOp : List String → Option String
   | "steps" :: ts => do
     let (a, ts) ← pArr ts
     let (h, _) ← pNat ts
-    -- `Propagated::steps_iter` yields 1 before it touches the inner iterator: with horizon 0
-    -- nothing of a malformed (all-zero) inner curve is evaluated
-    pure (match a with
-      | some (.prop j x) => if (Arr.prop j x).WF then listToStr ((Arr.prop j x).stepsUpTo h)
-                            else if h = 0 ∧ arrWF0 x then "[]" else "panic"
-      | a => withArr a fun a => listToStr (a.stepsUpTo h))
+    pure (withArr a fun a => listToStr (a.stepsUpTo h))
   | "bsteps" :: ts => do
     let (a, ts) ← pArr ts
     let (h, _) ← pNat ts
